@@ -30,51 +30,53 @@ Lemma exec_extends w p : forall k log, exists ext, fst (fst (exec w p k log)) = 
 Proof.
   induction p as [| sid e | | p IHp q IHq | sid sk ex body IH]; intros k log; cbn [exec].
   - exists []. now rewrite app_nil_r.
-  - destruct (deliver_shape k (recipients w (level_of sid)) sid e log) as (m & Hm & _).
-    destruct (deliver k (recipients w (level_of sid)) sid e log) as [l r]. cbn in *. eexists. exact Hm.
+  - destruct (deliver_shape k (recipients w (level_of sid) e) sid e log) as (m & Hm & _).
+    destruct (deliver k (recipients w (level_of sid) e) sid e log) as [l r]. cbn in *. eexists. exact Hm.
   - eexists. reflexivity.
   - destruct (IHp k log) as (e1 & H1). destruct (exec w p k log) as [[l1 r1] x1]. cbn in H1. subst l1.
     destruct r1; [eexists; reflexivity|].
     destruct (IHq k (log ++ e1)) as (e2 & H2). destruct (exec w q k (log ++ e1)) as [[l2 r2] x2]. cbn in *.
     subst l2. exists (e1 ++ e2). now rewrite app_assoc.
-  - destruct (deliver_shape k (recipients w (level_of sid)) sid (start_of sk) log) as (m0 & H0 & _).
-    destruct (deliver k (recipients w (level_of sid)) sid (start_of sk) log) as [l0 r0]. cbn in H0. subst l0.
-    set (l0 := log ++ block (firstn m0 (recipients w (level_of sid))) sid (start_of sk)).
+  - destruct (deliver_shape k (recipients w (level_of sid) (start_of sk)) sid (start_of sk) log) as (m0 & H0 & _).
+    destruct (deliver k (recipients w (level_of sid) (start_of sk)) sid (start_of sk) log) as [l0 r0]. cbn in H0. subst l0.
+    set (l0 := log ++ block (firstn m0 (recipients w (level_of sid) (start_of sk))) sid (start_of sk)).
     assert (Hb : exists e1, fst (fst (if r0 then (l0, true, []) else exec w body k l0)) = l0 ++ e1).
     { destruct r0; [exists []; cbn; now rewrite app_nil_r | apply IH]. }
     destruct Hb as (e1 & H1).
     destruct (if r0 then (l0, true, []) else exec w body k l0) as [[l1 r1] x1]. cbn in H1. subst l1.
-    destruct (deliver_shape k (recipients w (level_of sid)) sid (fin_of sk) (l0 ++ e1)) as (m2 & H2 & _).
-    destruct (deliver k (recipients w (level_of sid)) sid (fin_of sk) (l0 ++ e1)) as [l2 r2]. cbn in *. subst l2.
+    destruct (deliver_shape k (recipients w (level_of sid) (fin_of sk)) sid (fin_of sk) (l0 ++ e1)) as (m2 & H2 & _).
+    destruct (deliver k (recipients w (level_of sid) (fin_of sk)) sid (fin_of sk) (l0 ++ e1)) as [l2 r2].
+    cbn [fst snd] in *. subst l2.
     unfold l0. rewrite <- !app_assoc. eexists. reflexivity.
 Qed.
 
 (* whatever the abort index, the log of a run_step call starts with a delivery of the step's START event (to the
    first recipient) and ends with a delivery of its FINISHED event *)
 Theorem step_bracketed w sid sk ex body k :
-  recipients w (level_of sid) <> [] ->
+  recipients w (level_of sid) (start_of sk) <> [] -> recipients w (level_of sid) (fin_of sk) <> [] ->
   let l := fst (fst (exec w (PStep sid sk ex body) k [])) in
-  (exists post, l = Deliv (hd 0 (recipients w (level_of sid))) sid (start_of sk) :: post) /\
-  (exists pre r, l = pre ++ [Deliv r sid (fin_of sk)] /\ In r (recipients w (level_of sid))).
+  (exists post, l = Deliv (hd 0 (recipients w (level_of sid) (start_of sk))) sid (start_of sk) :: post) /\
+  (exists pre r, l = pre ++ [Deliv r sid (fin_of sk)] /\ In r (recipients w (level_of sid) (fin_of sk))).
 Proof.
-  intros Hne. cbn [exec].
-  set (rc := recipients w (level_of sid)) in *.
-  destruct (deliver_shape k rc sid (start_of sk) []) as (m0 & H0 & B0).
-  destruct (deliver k rc sid (start_of sk) []) as [l0 r0]. cbn in H0. subst l0.
-  set (l0 := block (firstn m0 rc) sid (start_of sk)).
+  intros Hnes Hnef. cbn [exec].
+  set (rcs := recipients w (level_of sid) (start_of sk)) in *.
+  set (rcf := recipients w (level_of sid) (fin_of sk)) in *.
+  destruct (deliver_shape k rcs sid (start_of sk) []) as (m0 & H0 & B0).
+  destruct (deliver k rcs sid (start_of sk) []) as [l0 r0]. cbn in H0. subst l0.
+  set (l0 := block (firstn m0 rcs) sid (start_of sk)).
   assert (Hb : exists e1, fst (fst (if r0 then (l0, true, []) else exec w body k l0)) = l0 ++ e1).
   { destruct r0; [exists []; cbn; now rewrite app_nil_r | apply exec_extends]. }
   destruct Hb as (e1 & H1).
   destruct (if r0 then (l0, true, []) else exec w body k l0) as [[l1 r1] x1]. cbn in H1. subst l1.
-  destruct (deliver_shape k rc sid (fin_of sk) (l0 ++ e1)) as (m2 & H2 & B2).
-  destruct (deliver k rc sid (fin_of sk) (l0 ++ e1)) as [l2 r2]. cbn in *. subst l2.
-  specialize (B0 Hne). specialize (B2 Hne). split.
-  - unfold l0. destruct rc as [|a rc']; [now destruct Hne|]. destruct m0 as [|m0]; [lia|].
+  destruct (deliver_shape k rcf sid (fin_of sk) (l0 ++ e1)) as (m2 & H2 & B2).
+  destruct (deliver k rcf sid (fin_of sk) (l0 ++ e1)) as [l2 r2]. cbn in *. subst l2.
+  specialize (B0 Hnes). specialize (B2 Hnef). split.
+  - unfold l0. destruct rcs as [|a rc']; [now destruct Hnes|]. destruct m0 as [|m0]; [lia|].
     cbn. eexists. reflexivity.
-  - destruct (firstn m2 rc) as [|a t] eqn:E.
+  - destruct (firstn m2 rcf) as [|a t] eqn:E.
     + apply (f_equal (@length nat)) in E. rewrite firstn_length in E. cbn in E. lia.
-    + assert (Hin : forall x, In x (a :: t) -> In x rc).
-      { intros x Hx. rewrite <- E in Hx. rewrite <- (firstn_skipn m2 rc). apply in_or_app. now left. }
+    + assert (Hin : forall x, In x (a :: t) -> In x rcf).
+      { intros x Hx. rewrite <- E in Hx. rewrite <- (firstn_skipn m2 rcf). apply in_or_app. now left. }
       destruct (exists_last (l := a :: t) ltac:(discriminate)) as (pre & r & Ep). rewrite Ep in *.
       unfold block. rewrite map_app. cbn. exists ((l0 ++ e1) ++ map (fun r0 => Deliv r0 sid (fin_of sk)) pre), r.
       split; [now rewrite <- !app_assoc|]. apply Hin. apply in_or_app. right. now left.
@@ -119,3 +121,123 @@ Proof.
     + left. split; [reflexivity|]. eexists; split; [reflexivity | discriminate].
     + left. split; [reflexivity|]. eexists; split; [reflexivity|]. destruct (few_eval rs); discriminate.
 Qed.
+
+(* ---- (c) every started step is finished, innermost first, whatever the abort index ---------------- *)
+Section Closed.
+Variable w : world.
+Hypothesis rc_nonempty : forall lvl e, recipients w lvl e <> [].
+
+(* a stack of open steps as [scan] builds them: distinct step ids, each with a FINISHED event *)
+Definition good (S : list (nat * evt)) : Prop :=
+  NoDup (map fst S) /\ Forall (fun sf => is_fin (snd sf) = true) S.
+
+(* emitting the FINISHED events of the open steps, innermost first, closes them all *)
+Lemma scan_closure : forall S st, good S -> (forall s, In s (map fst S) -> ~ In s (map fst st)) ->
+  scan (closure w S) (S ++ st) = st.
+Proof.
+  induction S as [|[sid f] S IH]; intros st [Hnd Hf] Hdis; [reflexivity|].
+  cbn [map fst] in Hnd. inversion Hnd as [|? ? Hnin Hnd']; subst. inversion Hf as [|? ? Hfin Hf']; subst. cbn in Hfin.
+  unfold closure. cbn [flat_map fst snd]. fold (closure w S). rewrite scan_app. cbn [app].
+  change (map (fun r => Deliv r sid f) (recipients w (level_of sid) f)) with (block (recipients w (level_of sid) f) sid f).
+  rewrite scan_block_fin; [| apply rc_nonempty | exact Hfin |].
+  - apply IH; [split; assumption|]. intros s Hs. apply Hdis. cbn. now right.
+  - rewrite map_app. intros Hin. apply in_app_or in Hin as [Hin|Hin]; [contradiction|].
+    apply (Hdis sid); [cbn; now left | exact Hin].
+Qed.
+
+Lemma good_nil : good []. Proof. split; constructor. Qed.
+Lemma good_single sid sk : good [(sid, fin_of sk)].
+Proof. split; [cbn; constructor; [intros [] | constructor] | constructor; [apply fin_of_is_fin | constructor]]. Qed.
+
+(* the steps open after any prefix of the trace of a well-formed program: a good stack of steps of that program *)
+Lemma prefix_stack p : wf p -> forall j,
+  good (scan (firstn j (trace w p)) []) /\
+  (forall s, In s (map fst (scan (firstn j (trace w p)) [])) -> In s (ids p)).
+Proof.
+  induction p as [| sid e | | p IHp q IHq | sid sk ex body IH]; cbn [trace ids wf]; unfold eblock; intros Hwf j.
+  - rewrite firstn_nil. split; [apply good_nil | intros s []].
+  - destruct Hwf as [Hs Hf]. rewrite firstn_block, scan_block_other by assumption. split; [apply good_nil | intros s []].
+  - destruct j; [rewrite firstn_O | rewrite firstn_S_cons, firstn_nil]; cbn; (split; [apply good_nil | intros s []]).
+  - destruct Hwf as [Hp Hq]. destruct (le_lt_dec j (length (trace w p))) as [Hle|Hgt].
+    + rewrite firstn_app_le by exact Hle. destruct (IHp Hp j) as [G I]. split; [exact G|].
+      intros s Hs. apply in_or_app. left. now apply I.
+    + rewrite firstn_app_ge by lia. rewrite scan_app.
+      rewrite (trace_balanced w rc_nonempty p Hp []) by (intros s _ []).
+      destruct (IHq Hq (j - length (trace w p))) as [G I]. split; [exact G|].
+      intros s Hs. apply in_or_app. right. now apply I.
+  - destruct Hwf as [Hn Hb].
+    set (rcs := recipients w (level_of sid) (start_of sk)). set (rcf := recipients w (level_of sid) (fin_of sk)).
+    assert (Hrcs : rcs <> []) by apply rc_nonempty. assert (Hrcf : rcf <> []) by apply rc_nonempty.
+    set (bs := block rcs sid (start_of sk)). set (bf := block rcf sid (fin_of sk)).
+    assert (Lbs : length bs = length rcs) by apply block_length.
+    assert (Hsbs : scan bs [] = [(sid, fin_of sk)]).
+    { unfold bs. rewrite scan_block_start; [now rewrite fin_for_start | exact Hrcs | apply start_of_is_start | intros []]. }
+    destruct (le_lt_dec j (length bs)) as [H1|H1].
+    + (* inside the START block *)
+      rewrite firstn_app_le by exact H1. unfold bs. rewrite firstn_block.
+      destruct (firstn j rcs) as [|a t] eqn:E.
+      * cbn. split; [apply good_nil | intros s []].
+      * rewrite scan_block_start; [| discriminate | apply start_of_is_start | intros []].
+        rewrite fin_for_start. split; [apply good_single|]. intros s [<-|[]]. now left.
+    + rewrite firstn_app_ge by lia. rewrite scan_app, Hsbs.
+      destruct (le_lt_dec (j - length bs) (length (trace w body))) as [H2|H2].
+      * (* inside the body *)
+        rewrite firstn_app_le by exact H2.
+        destruct (IH Hb (j - length bs)) as [[Gn Gf] I].
+        rewrite (scan_base0 (firstn (j - length bs) (trace w body)) [(sid, fin_of sk)]).
+        2:{ intros s Hs [E|[]]. cbn in E. subst s. apply Hn.
+            apply (trace_sids w body Hb). exact (step_sids_firstn_incl _ _ _ Hs). }
+        split; [split|].
+        -- rewrite map_app. cbn. apply nodup_app_intro; [exact Gn | constructor; [intros [] | constructor] |].
+           intros s Hs [E|[]]. subst s. apply Hn. now apply I.
+        -- apply Forall_app. split; [exact Gf | constructor; [apply fin_of_is_fin | constructor]].
+        -- intros s Hs. rewrite map_app in Hs. apply in_app_or in Hs as [Hs|[E|[]]]; [right; now apply I | now left].
+      * (* inside the FINISHED block *)
+        rewrite firstn_app_ge by lia. rewrite scan_app.
+        rewrite (trace_balanced w rc_nonempty body Hb [(sid, fin_of sk)]).
+        2:{ intros s Hs [E|[]]. cbn in E. subst s. contradiction. }
+        unfold bf. rewrite firstn_block.
+        destruct (firstn (j - length bs - length (trace w body)) rcf) as [|a t] eqn:E.
+        -- exfalso. apply (f_equal (@length nat)) in E. rewrite firstn_length in E. cbn in E.
+           destruct rcf; [congruence | cbn in E; lia].
+        -- rewrite scan_block_fin; [| discriminate | apply fin_of_is_fin | intros []].
+           split; [apply good_nil | intros s []].
+Qed.
+
+Lemma prefix_stack_list ps : Forall wf ps -> forall j, good (scan (firstn j (flat_map (trace w) ps)) []).
+Proof.
+  induction ps as [|p t IH]; intros Hw j; [cbn; rewrite firstn_nil; apply good_nil|].
+  inversion Hw as [|? ? Hp Ht]; subst. cbn [flat_map].
+  destruct (le_lt_dec j (length (trace w p))) as [Hle|Hgt].
+  - rewrite firstn_app_le by exact Hle. apply (prefix_stack p Hp j).
+  - rewrite firstn_app_ge by lia. rewrite scan_app.
+    rewrite (trace_balanced w rc_nonempty p Hp []) by (intros s _ []). apply IH. exact Ht.
+Qed.
+
+Lemma full_log_balanced ps : Forall wf ps -> scan (flat_map (trace w) ps) [] = [].
+Proof.
+  induction ps as [|p t IH]; intros Hw; [reflexivity|]. inversion Hw as [|? ? Hp Ht]; subst. cbn [flat_map].
+  rewrite scan_app. rewrite (trace_balanced w rc_nonempty p Hp []) by (intros s _ []). now apply IH.
+Qed.
+
+(* the log predicted for ANY abort index leaves no step open: every step whose START event was delivered (to at least
+   one recipient) gets its FINISHED event, and FINISHED events come innermost first *)
+Theorem predict_closed ps k : Forall wf ps -> scan (predict w (flat_map (trace w) ps) k) [] = [].
+Proof.
+  intros Hw. destruct k as [k|]; cbn [predict]; [|now apply full_log_balanced].
+  destruct (k <? length (flat_map (trace w) ps)); [|now apply full_log_balanced].
+  rewrite scan_app.
+  set (S := scan (firstn (Datatypes.S k) (flat_map (trace w) ps)) []).
+  pose proof (prefix_stack_list ps Hw (Datatypes.S k)) as G. fold S in G.
+  rewrite <- (app_nil_r S) at 2. apply scan_closure; [exact G | intros s _ []].
+Qed.
+
+Theorem run_steps_closed ps k : Forall wf ps -> Forall quiet ps ->
+  scan (fst (fst (run_steps w ps k [] false))) [] = [].
+Proof.
+  intros Hw Hq. destruct k as [k|].
+  - destruct (prefix_closure w rc_nonempty ps k Hw Hq) as [_ H]. rewrite H. now apply predict_closed.
+  - destruct (prefix_closure w rc_nonempty ps 0 Hw Hq) as [H _]. rewrite H. now apply full_log_balanced.
+Qed.
+
+End Closed.
